@@ -171,7 +171,7 @@ def counters(ctx, rep):
                               '%s: indexed %s not bounded by its object' % (base_name(g.name), users[0].op),
                               detail={'bound': bound, 'object_sizes_bytes': sizes, 'stride': stride, 'const_offset': const_off},
                               sample={'function': g.name, 'site': i.loc, 'bound': bound, 'objects': sizes}, key='IDX-1|%s|%s' % (base_name(g.name), users[0].op))
-        rep.instances(nsites, 4, 'string-dependent indexed access sites')
+        rep.instances(nsites, 3, 'string-dependent indexed access sites')
 
         rep.rule('IDX-2', 'inventory: every load/store through a variable-index address in the library is covered by one of: concrete bounds-checked '
                  'execution in a bitflow harness (counter-controlled loops), the monotone-counter rule IDX-1, or is a read of a constant table indexed by a '
@@ -192,7 +192,7 @@ def counters(ctx, rep):
                     elif bn in anchors: how = 'IDX-1'
                     rep.check(how is not None, 'indexed %s at %s in %s is covered (%s)' % (u.op, u.loc, bn, how), u.loc, '%s: unclassified variable-index %s' % (bn, u.op),
                               sample={'site': u.loc, 'function': bn, 'covered_by': how} if ninv <= 4 else None, key='IDX-2|%s|%s' % (bn, u.op))
-        rep.instances(ninv, 15, 'variable-index access sites')
+        rep.instances(ninv, 8, 'variable-index access sites')
         rep.info['indexed_sites'] = ninv
 
 
@@ -211,7 +211,7 @@ def input_immutability(ctx, rep):
             for n, c in enumerate(pc):
                 if c and n < len(f.params) and f.params[n]['ty'].endswith('*'):
                     protected.add(('ext', f.name, n)); protected.add(('extdeep', f.name, n))
-        rep.instances(len(protected) // 2, 15, 'const-qualified pointer parameters')
+        rep.instances(len(protected) // 2, 8, 'const-qualified pointer parameters')
         nw = 0
         for f in P.defined.values():
             for i in f.all_insts():
@@ -220,7 +220,7 @@ def input_immutability(ctx, rep):
                     hit = [o for o in pts.of(f, ptr) if o in protected]
                     rep.check(not hit, 'write at %s does not target a const input' % i.loc, i.loc, '%s writes into const parameter %s' % (base_name(f.name), hit[:1]),
                               detail=[str(h) for h in hit[:3]], key='CONST-1|%s|%s' % (base_name(f.name), hit[0][1:] if hit else ''))
-        rep.instances(nw, 60, 'write sites')
+        rep.instances(nw, 20, 'write sites')
         api_nonconst_seed = sorted(f.name for f in P.defined.values() if not f.local and f.name.startswith('polyseed_') and
                                    any(p['ty'] == '%' + DATA_STRUCT + '*' and not (f.d.get('param_const') or [False] * 9)[n] for n, p in enumerate(f.params))
                                    and f.d.get('visibility') != 'hidden' or (not f.local and cfg[2] == 'S' and f.name in ('polyseed_crypt', 'polyseed_free')))
@@ -257,7 +257,7 @@ def normaliser_buffers(ctx, rep):
                 rep.check(ok, 'normaliser output at %s is a whole polyseed_str (%d bytes) from offset 0' % (i.loc, S), i.loc,
                           '%s: normaliser writes into a buffer that is not a whole polyseed_str' % base_name(f.name), detail={'offset': off, 'base': str(base)},
                           sample={'site': i.loc, 'function': f.name}, key='BUF-1|%s|%s' % (base_name(f.name), t[1]))
-        rep.instances(n, 6, 'normaliser call sites')
+        rep.instances(n, 3, 'normaliser call sites')
         # the fast-path bound
         worst = max(16 * max(len(w) for w in L.words) + 15 * len(L.separator) for L in T.ordered())
         from .rules_bounds import must_facts as mf
@@ -386,7 +386,7 @@ def helper_contracts(ctx, rep):
                                 if ph is not None and ph.op == 'phi' and const_of(c.ops[1]) >= 2048: searched = True
                     rep.check(searched, 'negative result on path %s comes after a search step' % wk.path, g.blocks[wk.path[-1]][-1].loc, '%s: token rejected without searching' % base_name(g.name),
                               key='HELP-3|early-reject')
-            rep.instances(n, 2, 'negative-return paths of lang_search')
+            rep.instances(n, 1, 'negative-return paths of lang_search')
         rep.rule('HELP-4', 'the default clock returns the value of time(NULL) unchanged (no truncation)')
         for g in P.defined.values():
             calls = [i for i, t in P.calls(g) if t == ('direct', 'time')]
